@@ -52,7 +52,7 @@ REPEAT_PROPS = ["index", "number", "even", "odd", "start", "end", "length", "let
 
 
 def paths(scope):
-    ps = list(BASE_PATHS)
+    ps = []
     for v in scope.get("vars", []):
         ps += [v, v, v + "/k_a", v + "/k_n", v + "/k_opt"]
     for v in scope.get("repeats", []):
@@ -61,7 +61,10 @@ def paths(scope):
         ps += [v, v]
     if scope.get("attrs"):
         ps += ["attrs/" + a for a in scope["attrs"]]
-    return st.sampled_from(ps)
+    if not ps:
+        return st.sampled_from(BASE_PATHS)
+    # names the enclosing elements put in scope are drawn as often as the fixed ones (the fixed list is long)
+    return st.one_of(st.sampled_from(BASE_PATHS), st.sampled_from(ps))
 
 
 @st.composite
